@@ -68,7 +68,7 @@ static Bytes casevar(const Bytes &s, int k) {
 }
 
 static void stage_table(Run &R) {
-    static const char *PRE[] = {"a.", "a.b.", "mail.sub.x.", "w.x.y.z."};
+    static const char *PRE[] = {"a.", "a.b.", "mail.sub.x.", "w.x.y.z.", "home.", "example.", "www.home.", "local.", "test.", "arpa.", "localhost.", "com.", "x.example.y.", "invalid.a."};
     uint64_t total = 0;
     for (size_t r = 0; r < T.puny.rows.size(); r++) {
         if ((int) (r % R.a.nworkers) != R.a.worker) continue;
